@@ -200,7 +200,7 @@ LOOPS = ("WhileStmt", "DoStmt", "ForStmt")
 C_SUFFIXES = (".c", ".cc", ".cpp")
 
 
-LITERAL_FNS = ("legal_path",)
+LITERAL_FNS = ("legal_path", "check_valid_path", "inc_lexically_normal", "inc_open", "match_string")
 
 
 class SitesError(Exception):
